@@ -6,6 +6,7 @@
 //!   fusim shrink <file> <out>              (internal) minimise a failing scenario
 //!   fusim selftest determinism <ID> <n>    run n seeds twice in different processes
 
+mod ambient;
 mod crosscheck;
 mod ctx;
 mod driver;
